@@ -8,33 +8,9 @@
 #![allow(clippy::type_complexity)]
 #![allow(dead_code)]
 
-mod harness;
-mod util;
-mod p3;
-mod gen;
-mod c01;
-mod c02;
-mod c03;
-mod c04;
-mod c05;
-mod c06;
-mod c07;
-mod c08;
-mod c09;
-mod c10;
-mod c11;
-mod c12;
-mod c13;
-mod c14;
-mod c15;
-mod c16;
-mod c17;
-mod c18;
-mod c19;
-mod c20;
-mod codec;
 
-use harness::{drive, replay, RunArgs, Tier, TrackingAlloc};
+use pvlib::harness::{self, drive, replay, RunArgs, Tier, TrackingAlloc};
+use pvlib::*;
 use std::path::{Path, PathBuf};
 use std::process::{Command, Stdio};
 use std::time::{Duration, Instant};
@@ -232,6 +208,42 @@ fn supervise(id: &str, tier: Tier) -> i32 {
     }
 }
 
+/// Judge a libFuzzer artifact with the C08 monitors and the C07 oracle; on a violation write a
+/// JSON replay case and print the VIOLATION line of the property concerned.
+fn fuzz_artifact(path: &Path) -> i32 {
+    use harness::Check;
+    let Ok(data) = std::fs::read(path) else {
+        eprintln!("pv: cannot read {}", path.display());
+        return 2;
+    };
+    if data.len() < 2 {
+        return 0;
+    }
+    let spec = fuzzsel::spec_from(data[0], data[1]).clone();
+    let bytes = util::Hex(data[2..].to_vec());
+    let c8 = c08::Case::Str { spec: spec.clone(), bytes: bytes.clone(), how: "fuzz artifact".into() };
+    let c7 = c07::Case::Str { spec, bytes, expect: c07::Expect::Unknown, why: "fuzz artifact".into() };
+    let h = harness::hash64(&data);
+    let mut rc = 0;
+    if let harness::Verdict::Violation { sig, what } = c08::C08.run(&c8).verdict {
+        let p = harness::replay_dir("C08").join(format!("fuzz-{h:016x}.json"));
+        let _ = std::fs::write(&p, serde_json::json!({"property": "C08", "sig": sig, "what": what, "case": c8}).to_string());
+        println!("pv: violation sig={sig} what={what}");
+        println!("VIOLATION property=C08 replay={}", p.display());
+        rc = 1;
+    }
+    if let harness::Verdict::Violation { sig, what } = c07::C07.run(&c7).verdict {
+        if !sig.contains("panic@") || rc == 0 {
+            let p = harness::replay_dir("C07").join(format!("fuzz-{h:016x}.json"));
+            let _ = std::fs::write(&p, serde_json::json!({"property": "C07", "sig": sig, "what": what, "case": c7}).to_string());
+            println!("pv: violation sig={sig} what={what}");
+            println!("VIOLATION property=C07 replay={}", p.display());
+            rc = 1;
+        }
+    }
+    rc
+}
+
 fn main() {
     harness::install_panic_hook();
     let args: Vec<String> = std::env::args().collect();
@@ -277,6 +289,15 @@ fn main() {
             }
         }
         Some("replay-raw") if args.len() >= 4 => run_replay(&args[2], Path::new(&args[3])),
+        Some("dump-corpus") if args.len() >= 3 => {
+            let dir = PathBuf::from(&args[2]);
+            let _ = std::fs::create_dir_all(&dir);
+            for (i, f) in fuzzsel::seed_corpus().iter().enumerate() {
+                let _ = std::fs::write(dir.join(format!("seed-{i:05}")), f);
+            }
+            0
+        }
+        Some("fuzz-artifact") if args.len() >= 3 => fuzz_artifact(Path::new(&args[2])),
         _ => {
             eprintln!("usage: pv run <ID> <quick|thorough> | pv replay <file> | pv list");
             2
